@@ -22,7 +22,8 @@ MIN_V = 7  # oldest format version for which the harness has inverse converters
 RULE = ("corpus: every flow of every shipped test/mitmproxy/data/dumpfile-*.mitm (kind dump: file x index). Generated: "
         "55% synth = a real current flow (HTTP with/without response, error, websocket, TCP, UDP, DNS; randomised marks, "
         "comments, TLS versions incl. QUICv1, SNI, ALPN, addresses, via, timestamps) converted BACKWARDS by harness-side "
-        "inverse converters into the state shape of a random format version 7..20 (options: bytes hosts, sni=True, "
+        "inverse converters into the state shape of a random format version 7..20, or left in the current format 21 (options: client_conn.proxy_mode "
+        "over 22 mode heads x 13 listen-address forms incl. bare/bracketed IPv6 for formats >= 18, bytes hosts, sni=True, "
         "None offers, dropped transport_protocol, issue-4576 timestamps), written with tnetstring and read back; 15% the "
         "same with one field of the old state deleted/replaced (converter bodies raising); 10% the same with an extra "
         "bytes-keyed version entry (stale entry); 20% ver = version values from a dictionary (current, newer ints, "
@@ -53,6 +54,15 @@ TRANSLATORS = ["compat_chain"]
 ALLOWED_AXIOMS = []
 COQ_PRELUDE = "From Coq Require Import ZArith.\nFrom MV Require Import Model.CompatPrelude.\n"
 
+# client_conn.proxy_mode specs (formats >= 18 and current): every mode family x listen address forms; independent list,
+# all accepted by ProxyMode.parse of the unchanged tree. The spec string must survive load, re-save and reload verbatim.
+PM_HEADS = ["regular", "transparent", "socks5", "reverse:https://example.com", "reverse:http://10.0.0.1:8000",
+            "reverse:tcp://[::1]:53", "reverse:dns://8.8.8.8", "reverse:quic://example.com:443", "reverse:tls://example.com:853",
+            "reverse:http3://example.com", "reverse:dtls://example.com:5684", "reverse:udp://127.0.0.1:53",
+            "upstream:http://proxy.example:3128", "upstream:https://[2001:db8::1]:8080", "local", "local:curl",
+            "local:!curl,wget", "wireguard", "wireguard:/tmp/wg.conf", "dns", "tun", "tun:utun5"]
+PM_LISTENS = ["", "", "@8080", "@127.0.0.1:8080", "@0.0.0.0:53", "@::1:8080", "@[::1]:8080", "@:::8080", "@2001:db8::2:8443",
+              "@[fe80::1]:3128", "@localhost:8080", "@proxy.example.com:443", "@65535", "@[::]:0"]
 TYPES = ["http", "http-noresp", "http-err", "ws", "tcp", "udp", "dns"]
 VER_VALUES = [21, 22, 23, 100, 2 ** 70, -1, 0, 1, 3, 4, 10, 20, True, False, None, 21.0, 22.5, "21", "", b"\x00\x0b", b"",
               [0, 10], [0, 10, 1], [0, 11], [0, 11, 3], [0, 17], [0, 18, 2], [0, 19], [1, 0, 0], [2, 0], [3, 0, 0], [3, 1], [4],
@@ -283,7 +293,12 @@ def build_current(r):
         for m in ("request", "response"):
             if s.get(m):
                 s[m]["trailers"] = None
-    real = flow.Flow.from_state(copy.deepcopy(s))
+    try:
+        real = flow.Flow.from_state(copy.deepcopy(s))
+    except Exception:
+        # the tree under check rejects this current state: keep it as the expectation, the reader will reject the file
+        # and the oracle reports the input
+        return _canon(s)
     return _canon(real.get_state())
 
 
@@ -439,7 +454,7 @@ MUT_PATHS = [["client_conn"], ["server_conn"], ["client_conn", "tls_version"], [
 def _recipe(rng, n):
     t = rng.weighted([(30, "http"), (10, "http-noresp"), (8, "http-err"), (12, "ws"), (18, "tcp"), (8, "udp"), (14, "dns")])
     lo = {"ws": 12, "dns": 16}.get(t, MIN_V)
-    v = rng.randint(lo, 20) if rng.chance(0.85) else rng.choice([lo, 10, 11, 12, 20] if lo <= 10 else [lo, 20])
+    v = rng.randint(lo, 21) if rng.chance(0.85) else rng.choice([lo, 10, 11, 12, 20, 21] if lo <= 10 else [lo, 20, 21])
     v = max(v, lo)
     r = {"t": t, "v": v, "n": n, "ts": rng.choice([0, 1, 946681200, 1700000000]),
          "marked": rng.choice(["", "", ":default:", ":red_circle:"]), "comment": rng.choice(["", "", "note", "é"]),
@@ -461,8 +476,8 @@ def _recipe(rng, n):
                     ("sc_cipher", .3)):
         if rng.chance(p):
             r[flag] = True
-    if rng.chance(0.3):
-        r["pmode"] = rng.choice(["transparent", "upstream:http://example.com:8080", "reverse:https://example.com"])
+    if rng.chance(0.65):
+        r["pmode"] = rng.choice(PM_HEADS) + rng.choice(PM_LISTENS)
     if rng.chance(0.3):
         r["mode"] = rng.choice(["transparent", "upstream", "socks5"])
     r["cstate"], r["sstate"] = rng.randint(0, 3), rng.randint(0, 3)
@@ -474,7 +489,7 @@ def gen(rng, n, tier):
     if tier == "thorough":
         k = 0
         for t in TYPES:
-            for v in range({"ws": 12, "dns": 16}.get(t, MIN_V), 21):
+            for v in range({"ws": 12, "dns": 16}.get(t, MIN_V), 22):
                 for variant in range(3):
                     k += 1
                     r = {"t": t, "v": v, "n": k}
@@ -483,6 +498,8 @@ def gen(rng, n, tier):
                                  snis="address", snic="example.com", tlsc="QUICv1", marked=":default:")
                     if variant == 2:
                         r["stale"] = v
+                    if v >= 18:
+                        r["pmode"] = PM_HEADS[k % len(PM_HEADS)] + PM_LISTENS[(k // 3) % len(PM_LISTENS)]
                     out.append({"k": "synth", "r": r})
         for val in VER_VALUES:
             for keys in ("s", "b", "bs", "sb"):
